@@ -329,7 +329,7 @@ def history_lines(vals, ksteps):
     return lines
 
 
-def state_lines(vals, ncalls=1, kind_line=None):
+def state_lines(vals, ncalls=1, kind_line=None, explore=0):
     """(alpha(pre), call) of a K2 counterexample, for the state-builder mode of the replay"""
     n = vals.get('h_pre_n', 0)
     g = lambda name, i: vals.get(name, {}).get(i, 0)
@@ -339,6 +339,8 @@ def state_lines(vals, ncalls=1, kind_line=None):
                                            g('h_pre_cnt', i) & (2**64 - 1), g('h_pre_age', i)))
     if kind_line:
         lines.append(kind_line)
+    if explore:
+        lines.append('explore %d' % explore)
     for c in range(ncalls):
         lines.append('call %d %d %d %d %d %d %d' % (g('h_op', c), g('h_k', c) & (2**64 - 1), g('h_v', c) & (2**64 - 1), g('h_a', c),
                                                     g('h_pk', c), g('h_ttl', c), g('h_now', c)))
